@@ -161,6 +161,13 @@ func (c *Ctx) field(rel, typ, name string) *types.Var {
 			return st.Field(i)
 		}
 	}
+	// a field moved into an embedded struct (shared base of sibling types) is still that field: promoted
+	// fields are found the way the language finds them
+	if o, _, _ := types.LookupFieldOrMethod(obj.Type(), true, p.Types, name); o != nil {
+		if v, isVar := o.(*types.Var); isVar && v.IsField() {
+			return v
+		}
+	}
 	return nil
 }
 
